@@ -451,11 +451,11 @@ example : isNumber [48, 120, 95, 49, 102] = true := by decide
 example : acceptsNumber [49, 46, 101] = false ∧ isNumber [49, 46, 101] = false := by decide   -- 1.e (`1.` then a name)
 
 
-/-- The converse (every Python literal is taken whole) is not proved; it is sampled exhaustively to
-    length 5 by the correspondence stream.  The one shape where the lexer used to take LESS than
-    Python's longest literal (C01's finding `1.else`: after `1.` an `e` was always read as an exponent)
-    is repaired in /repo (commit be24063); on the repaired model the literal `1.` is taken whole and
-    `else` is left for the next token. -/
+/-- The converse (every Python literal is taken whole, and the token is the longest literal) is proved in
+    `PV/C04/NumComplete.lean` (`acceptsNumber_eq_isNumber`, `lexRest_longest`, `lexRest_complete`).  The one
+    shape where the lexer used to take LESS than Python's longest literal (C01's finding `1.else`: after
+    `1.` an `e` was always read as an exponent) is repaired in /repo (commit be24063); on the repaired model
+    the literal `1.` is taken whole and `else` is left for the next token. -/
 theorem lexer_float_before_else :
     lexRest [49, 46, 101, 108, 115, 101] = .ok [101, 108, 115, 101] ∧
     [101, 108, 115, 101] ∈ number [49, 46, 101, 108, 115, 101] := ⟨rfl, by decide⟩
